@@ -18,9 +18,11 @@ at the entry of the harness hook), or it is blocked in `Join`. Afterwards every 
 in `Join` whose counter is 0 returns (the real `Wait` returns by itself).
 
 Answer: `<result>|<events>|<threads>|<procs>`
-  events : `h:P.H.E` user hook H of process P ran with error E (chronological), then `r:T:<ret>`
+  events : `h:H.E` user hook H ran with error E (chronological; hook ids may be shared between
+           processes – a registration is a (process, hook) pair – and the real hook object cannot
+           tell for which process it runs, so the process is not printed), then `r:T:<ret>`
            when the stepping thread finished its operation, then `r:T:-` for joins that returned
-  threads: per worker `i` (free) | `hP.H` (parked before hook H of P) | `jP` (blocked in Join)
+  threads: per worker `i` (free) | `hH` (parked before hook H) | `jP` (blocked in Join)
   procs  : per process `<terminated><done><Err()>:<sorted Keys()>` with Err() n | c | e<k>
 -/
 import Uniflow.Driver.Core
@@ -89,14 +91,14 @@ def showProc (s : State) (p : Nat) : String :=
 def showThread (s : State) (t : Nat) : String :=
   match parked s t with
   | .free => "i"
-  | .hook p h => s!"h{p}.{h}"
+  | .hook _ h => s!"h{h}"
   | .join p => s!"j{p}"
   | .runnable => "?"
 
 def showEvents (newLog : List LogE) : List String :=
   newLog.filterMap fun e =>
     match e.kind with
-    | .user n => some s!"h:{e.proc}.{n}.{e.err}"
+    | .user n => some s!"h:{n}.{e.err}"
     | _ => none
 
 def digest (res : String) (ev : List String) (s : State) : String :=
